@@ -2,7 +2,10 @@
 
    ev <ncb> { <nscripts> { <nops> {op} <rc> } } x <nx> {xop} p <np> {poll} c <nc> { <sec> <usec> }
      op   : ir cb prio var af | ic var | nr cb fd op af | nc fd op | tr cb sec usec var af
-          | tx var | ts var | in | dn
+          | tx var | ts var | in | dn | td cb sec usec var af
+            (td = tr, made through events_timer_register_double by the C driver: events.h defines the
+             double interface as the timeval interface at the converted value; the generators only
+             produce td timeouts that a double represents exactly, usec a multiple of 15625)
      xop  : op | run | spin
      poll : e0 | e1 | r <n> { fd bits }        bits: 1 in, 2 out, 4 err, 8 hup
    -> the trace, one event after another:
@@ -33,7 +36,7 @@ let parse_op_named t =
   | "ic" -> OImmCancel (nat ())
   | "nr" -> let cb = nat () in let fd = zed () in let o = zed () in let af = nat () in ONetReg (cb, fd, o, af)
   | "nc" -> let fd = zed () in let o = zed () in ONetCancel (fd, o)
-  | "tr" -> let cb = nat () in let s = num () in let u = num () in let v = nat () in let af = nat () in
+  | "tr" | "td" -> let cb = nat () in let s = num () in let u = num () in let v = nat () in let af = nat () in
     OTimerReg (cb, (s, u), v, af)
   | "tx" -> OTimerCancel (nat ())
   | "ts" -> OTimerReset (nat ())
